@@ -6,7 +6,7 @@ ENTRY = {
                 "payload-length field 0/8/16/6/3/4096/65535) ++ one sequence of 0..3 (quick) / 0..4 (thorough) TLVs from a 33-entry menu of valid and "
                 "malformed encodings ++ payload exact/one byte short/eight bytes extra, or one truncation of an encoder-made datagram; decoded by the real "
                 "ReadPacket and ReadPacketPlusPad (stride 8 and 64) with bytes consumed measured on the reader, then Length/Timestamp/IsExternalTrigger/String/"
-                "ChannelInfo/Frames/ReadValue/MakePretendPacket/Bytes each called in its own recover and the sizes compared. Cases = (header-length mode, first TLV). "
+                "ChannelInfo/Frames/ReadValue/MakePretendPacket each called in its own recover and the sizes compared. Cases = (header-length mode, number of TLVs, first TLV). "
                 "Non-trivial = the datagram decoded without error and a payload was read. "
                 "(B) one execution = one packet built by NewPacket [+SetTimestamp] [+NewData] (cases = sample width x sample count x dims), Bytes(), ReadPacket, "
                 "field-by-field comparison of version, source id, sequence number, channel offset, shape, samples, timestamp counter; always non-trivial.",
@@ -14,9 +14,10 @@ ENTRY = {
                         "bytes-consumed bound is max(16, header length + payload length): the 16-byte fixed header must be read to learn the lengths",
                         "a constructor call that panics or returns an error builds no packet: round-trip clause vacuous, counted as observation (DESIGN 7.8)",
                         "ReadPacketPlusPad stride >= 1 (stride 0 divides by zero: out of domain); its bound is the declared size rounded up to the stride",
-                        "Bytes() on a decoded packet is only required to round-trip where the re-encoded datagram is self-consistent "
-                        "(emitted TLVs fill the retained header length and len(Bytes()) == Length()); it is not called on a decoded timestamp of rate 0 "
-                        "(non-terminating loop, demonstrated once by case B/zz-timestamp-rate-zero under a 3 s watchdog)",
+                        "Bytes() on a *decoded* packet is outside the statement (its second clause is about constructor-built packets): a panic there "
+                        "(format item without endian flag), a differing re-decode, and decoded rate-0 timestamps (on which Bytes() would not return; "
+                        "not called) are counted as observations in coverage.extra, not as violations; skipped for payload-length fields > 4096",
+                        "the constructor-side rate-0 timestamp (Bytes() never returns) is run once under a 3 s watchdog as the last case of the run",
                         "Length() != len(Bytes()) for header-only constructed packets and bytes left unread by the decoder are recorded as observations, not violations"],
     },
 }
